@@ -198,7 +198,7 @@ func runC42(c *Ctx) {
 		c.checkWrites("pc", currentSeq, map[string][]string{
 			"actor.(*producerController).PreStart":             {"const:0", "call:CurrentSeq"},
 			"actor.(*producerController).completeStore":        {"call:Seq"},
-			"actor.(*producerController).storeChunks":          {"var:seq"},
+			"actor.(*producerController).storeChunks":          {"var:$local"},
 			"actor.(*producerController).completeStoreChunked": {"field:pendingSeq"},
 		}, "currentSeq is written only from a store result or the prepared contiguous chunk run")
 		c.checkWrites("pc", unconfirmed, map[string][]string{
@@ -259,7 +259,7 @@ func runC42(c *Ctx) {
 		f := c.NewFlow(csc)
 		info := f.Info
 		mismatch := f.FactEdges(func(cm cmp) bool {
-			return cm.Op == token.NEQ && isCallNamed(info, cm.L, "Seq") && exprShape(info, cm.R) == ".currentSeq+index+1"
+			return cm.Op == token.NEQ && isCallNamed(info, cm.L, "Seq") && exprShape(info, cm.R) == ".currentSeq+$key+1"
 		})
 		w := f.AfterEdgesMayReach(mismatch, nil, nil, assignTo(info, currentSeq))
 		c.Check(w == nil && len(mismatch) > 0, "chunked/contiguous-results", "a chunked store whose results are not exactly currentSeq+1.. in order is never committed", c.P.Pos(csc.Decl.Pos()), f.describe(w))
